@@ -269,7 +269,7 @@ theorem readPolicy_ok (T : NameTables) (j : J) : (∃ r, readPolicy T (some j) =
   | str s => exact ⟨fun ⟨r, h⟩ => (nomatch h), fun ⟨_, h, _⟩ => (nomatch h)⟩
   | arr l => exact ⟨fun ⟨r, h⟩ => (nomatch h), fun ⟨_, h, _⟩ => (nomatch h)⟩
 
-/-! ### when the parser can only fail with ValueError -/
+/-! ### the parser can only fail with ValueError -/
 
 /-- the computation either returns or raises ValueError -/
 def OnlyRejects {α} (x : Except PErr α) : Prop := ∀ e, x = .error e → e = .reject
@@ -292,33 +292,34 @@ theorem parseOps_onlyRejects (T : NameTables) (kvs : List (String × J)) : OnlyR
         · exact onlyRejects_map _ _ ih e h
       · cases h; rfl
 
-theorem parseTypes_onlyRejects (T : NameTables) (kvs : List (String × J)) (ht : ∀ e ∈ kvs, OpsTyped e.2) :
-    OnlyRejects (parseTypes T kvs) := by
+theorem parseTypes_onlyRejects (T : NameTables) (kvs : List (String × J)) : OnlyRejects (parseTypes T kvs) := by
   induction kvs with
   | nil => intro e h; cases h
   | cons kv r ih =>
     obtain ⟨ot, ops⟩ := kv
-    obtain ⟨okvs, hops⟩ := ht (ot, ops) (List.mem_cons_self ..)
-    simp only at hops
-    subst hops
     intro e h
     simp only [parseTypes] at h
-    cases hp : parseOps T okvs with
-    | error e' =>
-      rw [hp] at h; simp only at h; cases h
-      exact parseOps_onlyRejects T okvs _ hp
-    | ok tbl =>
-      rw [hp] at h; simp only at h
-      split at h
-      · cases h; rfl
-      · exact onlyRejects_map _ _ (ih (fun e he => ht e (List.mem_cons_of_mem _ he))) e h
+    split at h
+    · rename_i okvs
+      cases hp : parseOps T okvs with
+      | error e' =>
+        rw [hp] at h; simp only at h; cases h
+        exact parseOps_onlyRejects T okvs _ hp
+      | ok tbl =>
+        rw [hp] at h; simp only at h
+        split at h
+        · cases h; rfl
+        · exact onlyRejects_map _ _ ih e h
+    · cases h; rfl
 
-theorem parsePolicy_onlyRejects (T : NameTables) (j : J) (ht : TableTyped j) : OnlyRejects (parsePolicy T j) := by
-  obtain ⟨kvs, rfl, h⟩ := ht
-  exact parseTypes_onlyRejects T kvs h
+theorem parsePolicy_onlyRejects (T : NameTables) (j : J) : OnlyRejects (parsePolicy T j) := by
+  intro e h
+  unfold parsePolicy at h
+  split at h
+  · exact parseTypes_onlyRejects T _ e h
+  · cases h; rfl
 
-theorem parseGroups_onlyRejects (T : NameTables) (kvs : List (String × J)) (ht : ∀ g ∈ kvs, TableTyped g.2) :
-    OnlyRejects (parseGroups T kvs) := by
+theorem parseGroups_onlyRejects (T : NameTables) (kvs : List (String × J)) : OnlyRejects (parseGroups T kvs) := by
   induction kvs with
   | nil => intro e h; cases h
   | cons kv r ih =>
@@ -328,127 +329,86 @@ theorem parseGroups_onlyRejects (T : NameTables) (kvs : List (String × J)) (ht 
     cases hp : parsePolicy T gp with
     | error e' =>
       rw [hp] at h; simp only at h; cases h
-      exact parsePolicy_onlyRejects T gp (ht (g, gp) (List.mem_cons_self ..)) _ hp
+      exact parsePolicy_onlyRejects T gp _ hp
     | ok t =>
       rw [hp] at h; simp only at h
-      exact onlyRejects_map _ _ (ih (fun e he => ht e (List.mem_cons_of_mem _ he))) e h
+      exact onlyRejects_map _ _ ih e h
 
-theorem parsePresetSection_onlyRejects (T : NameTables) (body : List (String × J))
-    (ht : ∀ v, dget body "preset" = some v → Falsy v ∨ TableTyped v) : OnlyRejects (parsePresetSection T body) := by
+theorem parsePresetSection_onlyRejects (T : NameTables) (body : List (String × J)) :
+    OnlyRejects (parsePresetSection T body) := by
   unfold parsePresetSection
-  cases hd : dget body "preset" with
-  | none => intro e h; cases h
-  | some v =>
-    simp only
-    by_cases htr : v.truthy = true
-    · rw [if_pos htr]
-      rcases ht v hd with hf | hty
-      · rw [Falsy, htr] at hf; cases hf
-      · exact onlyRejects_map _ _ (parsePolicy_onlyRejects T v hty)
-    · rw [if_neg htr]; intro e h; cases h
+  intro e h
+  split at h
+  · split at h
+    · exact onlyRejects_map _ _ (parsePolicy_onlyRejects T _) e h
+    · cases h
+  · cases h
 
-theorem parseGroupsSection_onlyRejects (T : NameTables) (body : List (String × J))
-    (ht : ∀ v, dget body "groups" = some v → Falsy v ∨ ∃ gs, v = .obj gs ∧ ∀ g ∈ gs, TableTyped g.2) :
+theorem parseGroupsSection_onlyRejects (T : NameTables) (body : List (String × J)) :
     OnlyRejects (parseGroupsSection T body) := by
   unfold parseGroupsSection
-  cases hd : dget body "groups" with
-  | none => intro e h; cases h
-  | some v =>
-    simp only
-    by_cases htr : v.truthy = true
-    · rw [if_pos htr]
-      rcases ht v hd with hf | ⟨gs, rfl, hty⟩
-      · rw [Falsy, htr] at hf; cases hf
-      · exact onlyRejects_map _ _ (parseGroups_onlyRejects T gs hty)
-    · rw [if_neg htr]; intro e h; cases h
+  intro e h
+  split at h
+  · split at h
+    · split at h
+      · exact onlyRejects_map _ _ (parseGroups_onlyRejects T _) e h
+      · cases h; rfl
+    · cases h
+  · cases h
 
-theorem parseSectioned_onlyRejects (T : NameTables) (body : List (String × J))
-    (h1 : ∀ v, dget body "preset" = some v → Falsy v ∨ TableTyped v)
-    (h2 : ∀ v, dget body "groups" = some v → Falsy v ∨ ∃ gs, v = .obj gs ∧ ∀ g ∈ gs, TableTyped g.2) :
-    OnlyRejects (parseSectioned T body) := by
+theorem parseSectioned_onlyRejects (T : NameTables) (body : List (String × J)) : OnlyRejects (parseSectioned T body) := by
   unfold parseSectioned
   intro e h
   cases hp : parsePresetSection T body with
   | error e' =>
     rw [hp] at h; simp only at h; cases h
-    exact parsePresetSection_onlyRejects T body h1 _ hp
+    exact parsePresetSection_onlyRejects T body _ hp
   | ok a =>
     rw [hp] at h; simp only at h
     cases hg : parseGroupsSection T body with
     | error e' =>
       rw [hg] at h; simp only at h; cases h
-      exact parseGroupsSection_onlyRejects T body h2 _ hg
+      exact parseGroupsSection_onlyRejects T body _ hg
     | ok b => rw [hg] at h; cases h
 
-theorem parseEntry_onlyRejects (T : NameTables) (body : J) (ht : BodyTyped T body) (hm : ¬ BodyMixed T body) :
-    OnlyRejects (parseEntry T body) := by
-  obtain ⟨kvs, rfl, hsecT, htyT⟩ := ht
-  simp only [parseEntry]
-  by_cases hemp : kvs.isEmpty = true
-  · rw [if_pos hemp]; intro e h; cases h
-  · rw [if_neg hemp]
-    have hne : kvs ≠ [] := by simpa using hemp
-    by_cases hsec : (dkeys kvs).all (fun k => ["groups", "preset"].contains k) = true
-    · rw [if_pos hsec]
-      have hsec' := (all_sections_iff kvs).mp hsec
-      exact onlyRejects_map _ _ (parseSectioned_onlyRejects T kvs (hsecT hsec').1 (hsecT hsec').2)
-    · rw [if_neg hsec]
-      have hsec' : ¬ ∀ k ∈ dkeys kvs, k = "groups" ∨ k = "preset" := fun h => hsec ((all_sections_iff kvs).mpr h)
-      by_cases hty : (dkeys kvs).all (fun k => T.objectTypes.contains k) = true
-      · rw [if_pos hty]
-        have hty' := (all_types_iff T kvs).mp hty
-        obtain ⟨kvs', h1, h2⟩ := htyT hsec' hty'
-        cases h1
-        exact onlyRejects_map _ _ (parseTypes_onlyRejects T kvs h2)
-      · rw [if_neg hty]
-        have hty' : ¬ ∀ k ∈ dkeys kvs, T.objectTypes.contains k = true := fun h => hty ((all_types_iff T kvs).mpr h)
-        intro e h
-        split at h
-        · rename_i hinv
-          exfalso
-          apply hm
-          refine ⟨kvs, rfl, hne, hsec', hty', ?_⟩
-          intro k hk
-          have hnot : k ∉ (dkeys kvs).filter (fun k => !["groups", "preset"].contains k && !T.objectTypes.contains k) := by
-            have : (dkeys kvs).filter (fun k => !["groups", "preset"].contains k && !T.objectTypes.contains k) = [] := by
-              simpa using hinv
-            rw [this]; simp
-          rw [List.mem_filter] at hnot
-          have hb : ¬ ((!["groups", "preset"].contains k && !T.objectTypes.contains k) = true) := fun hb => hnot ⟨hk, hb⟩
-          by_cases h1 : k = "groups"
-          · exact Or.inl h1
-          · by_cases h2 : k = "preset"
-            · exact Or.inr (Or.inl h2)
-            · refine Or.inr (Or.inr ?_)
-              cases hc : T.objectTypes.contains k with
-              | true => rfl
-              | false =>
-                have hc' : k ∉ T.objectTypes := by simpa using hc
-                exact absurd (by simp [h1, h2, hc']) hb
-        · cases h; rfl
+theorem parseEntry_onlyRejects (T : NameTables) (body : J) : OnlyRejects (parseEntry T body) := by
+  intro e h
+  unfold parseEntry at h
+  split at h
+  · split at h
+    · cases h
+    · simp only at h
+      split at h
+      · exact onlyRejects_map _ _ (parseSectioned_onlyRejects T _) e h
+      · split at h
+        · exact onlyRejects_map _ _ (parseTypes_onlyRejects T _) e h
+        · split at h <;> (cases h; rfl)
+  · cases h; rfl
 
-theorem parseEntries_onlyRejects (T : NameTables) (kvs : List (String × J))
-    (ht : ∀ e ∈ kvs, BodyTyped T e.2) (hm : ∀ e ∈ kvs, ¬ BodyMixed T e.2) : OnlyRejects (parseEntries T kvs) := by
+theorem parseEntries_onlyRejects (T : NameTables) (kvs : List (String × J)) : OnlyRejects (parseEntries T kvs) := by
   induction kvs with
   | nil => intro e h; cases h
   | cons kv r ih =>
     obtain ⟨name, body⟩ := kv
     intro e h
     simp only [parseEntries] at h
-    have ih' := ih (fun e he => ht e (List.mem_cons_of_mem _ he)) (fun e he => hm e (List.mem_cons_of_mem _ he))
     cases hp : parseEntry T body with
     | error e' =>
       rw [hp] at h; simp only at h; cases h
-      exact parseEntry_onlyRejects T body (ht _ (List.mem_cons_self ..)) (hm _ (List.mem_cons_self ..)) _ hp
+      exact parseEntry_onlyRejects T body _ hp
     | ok v =>
       rw [hp] at h
       cases v with
-      | none => simp only at h; exact ih' e h
-      | some v => simp only at h; exact onlyRejects_map _ _ ih' e h
+      | none => simp only at h; exact ih e h
+      | some v => simp only at h; exact onlyRejects_map _ _ ih e h
 
-theorem readPolicy_onlyRejects (T : NameTables) (j : J) (ht : DocTyped T j) (hm : DocUnmixed T j) :
-    OnlyRejects (readPolicy T (some j)) := by
-  obtain ⟨kvs, rfl, h⟩ := ht
-  exact parseEntries_onlyRejects T kvs h (hm kvs rfl)
+/-- whatever the document (and for text that is not JSON at all) -/
+theorem readPolicy_onlyRejects (T : NameTables) (doc : Option J) : OnlyRejects (readPolicy T doc) := by
+  intro e h
+  unfold readPolicy at h
+  split at h
+  · cases h; rfl
+  · exact parseEntries_onlyRejects T _ e h
+  · cases h; rfl
 
 end Kmip.Mon
